@@ -226,8 +226,11 @@ def function_ast(fn):
 # ---- the interpreter ------------------------------------------------------------------------------
 class Interp:
     def __init__(self, width=64, float_mode='fp64', max_unwind=80, feas_timeout_ms=3000, opaque=None,
-                 intrinsics=None, interpret_classes=(), max_paths=4000, on_function=None, ceil_cut=False):
+                 intrinsics=None, interpret_classes=(), max_paths=4000, on_function=None, ceil_cut=False,
+                 int_mode='bv'):
         self.W = width
+        self.int_mode = int_mode                  # 'bv': signed BitVec W + overflow side conditions; 'int': SMT Int (no bit
+        self.fresh = 0                            # operations, no floats), // and % defined by multiplication axioms (NIA)
         self.ceil_cut = ceil_cut                  # read math.ceil(a / b) on ints as the integer ceiling; instances
         self.lemmas = []                          # recorded here as (a, b) and justified by an FP lemma of the caller
         self.float_mode = float_mode
@@ -252,12 +255,24 @@ class Interp:
 
     # -- term helpers -------------------------------------------------------------------------------
     def bv(self, c):
+        if self.int_mode == 'int':
+            return z3.IntVal(c)
         if not (self.MIN <= c <= self.MAX):
             raise HarnessError(f'pyk: constant {c} does not fit the {self.W}-bit integer encoding')
         return z3.BitVecVal(c, self.W)
 
     def int_var(self, name):
+        if self.int_mode == 'int':
+            return SInt(z3.Int(name))
         return SInt(z3.BitVec(name, self.W))
+
+    def _int_div(self, a, b):
+        """Int mode: Python floor division as a fresh variable defined by multiplication (goes into the path condition)."""
+        self.fresh += 1
+        q = z3.Int(f'q!{self.fresh}')
+        self.pc.append(z3.And(z3.Implies(b > 0, z3.And(q * b <= a, a < q * b + b)),
+                              z3.Implies(b < 0, z3.And(q * b >= a, a > q * b + b))))
+        return q
 
     def bool_var(self, name):
         return SBool(z3.Bool(name))
@@ -285,6 +300,8 @@ class Interp:
         self.pre.append(cond.t if isinstance(cond, SBool) else cond)
 
     def in_range(self, t, lo, hi):
+        if self.int_mode == 'int':
+            return z3.And(t >= lo, t <= hi)
         return z3.And(t >= self.bv(max(lo, self.MIN)), t <= self.bv(min(hi, self.MAX)))
 
     # -- exploration --------------------------------------------------------------------------------
@@ -335,6 +352,7 @@ class Interp:
             if len(paths) > self.max_paths:
                 raise HarnessError('pyk: path budget exceeded')
             self.prefix = self.work.pop()
+            self.fresh = 0
             self.trace = []
             self.pc = []
             self.side = []
@@ -385,6 +403,8 @@ class Interp:
                 return fractions.Fraction(v)
             raise HarnessError(f'pyk: float() of {type(v).__name__}')
         if isinstance(v, (SInt, SBool)):
+            if self.int_mode == 'int':
+                raise HarnessError('pyk: int -> float conversion is not available in Int mode')
             return SFloat(z3.fpSignedToFP(RNE, self.it(v), F64))
         if isinstance(v, SDecStr):
             self.add_side(self.in_range(v.n.t, 0, (1 << 53) - 1), 'decimal digits < 2^53')
@@ -420,17 +440,22 @@ class Interp:
 
     def i_add(self, a, b):
         r = a + b
-        self._noovf_add(a, b, r)
+        if self.int_mode != 'int':
+            self._noovf_add(a, b, r)
         return r
 
     def i_sub(self, a, b):
         r = a - b
+        if self.int_mode == 'int':
+            return r
         sa, sb, sr = a < 0, b < 0, r < 0
         self.add_side(z3.Not(z3.And(sa != sb, sr != sa)), 'sub overflow')
         return r
 
     def i_mul(self, a, b, ca=None, cb=None):
         """ca/cb: concrete Python value of an operand when known (cheap exact range condition)."""
+        if self.int_mode == 'int':
+            return (a if ca is None else z3.IntVal(ca)) * (b if cb is None else z3.IntVal(cb))
         if ca is not None and cb is None:
             a, b, ca, cb = b, a, cb, ca
         if cb is not None:
@@ -448,6 +473,8 @@ class Interp:
     def i_floordiv(self, a, b):
         if self.branch(b == self.bv(0)):
             raise PyRaise('ZeroDivisionError', 'integer division or modulo by zero')
+        if self.int_mode == 'int':
+            return self._int_div(a, b)
         self.add_side(z3.Not(z3.And(a == self.bv(self.MIN), b == self.bv(-1))), 'div overflow')
         q = a / b  # bvsdiv: truncation
         r = z3.SRem(a, b)
@@ -456,6 +483,8 @@ class Interp:
     def i_mod(self, a, b):
         if self.branch(b == self.bv(0)):
             raise PyRaise('ZeroDivisionError', 'integer division or modulo by zero')
+        if self.int_mode == 'int':
+            return a - b * self._int_div(a, b)
         r = z3.SRem(a, b)
         return z3.If(z3.And(r != self.bv(0), (r < 0) != (b < 0)), r + b, r)
 
@@ -463,9 +492,11 @@ class Interp:
         if cs is not None:
             if cs < 0:
                 raise PyRaise('ValueError', 'negative shift count')
-            if cs >= self.W - 1:
+            if cs >= self.W - 1 and self.int_mode != 'int':
                 raise HarnessError('pyk: shift wider than the integer encoding')
             return self.i_mul(a, None, None, 1 << cs)
+        if self.int_mode == 'int':
+            raise HarnessError('pyk: symbolic shift amount in Int mode')
         if self.branch(s < 0):
             raise PyRaise('ValueError', 'negative shift count')
         self.add_side(z3.And(s < self.bv(self.W - 1), ((a << s) >> s) == a), 'shift overflow')
@@ -475,6 +506,8 @@ class Interp:
         if cs is not None:
             if cs < 0:
                 raise PyRaise('ValueError', 'negative shift count')
+            if self.int_mode == 'int':
+                return self._int_div(a, z3.IntVal(1 << cs))
             return a >> self.bv(min(cs, self.W - 1))
         if self.branch(s < 0):
             raise PyRaise('ValueError', 'negative shift count')
@@ -637,6 +670,8 @@ class Interp:
             return SInt(self.i_shl(x, y, cb))
         if name == '>>':
             return SInt(self.i_shr(x, y, cb))
+        if name in '|&^' and self.int_mode == 'int':
+            raise HarnessError('pyk: bit operations are not available in Int mode')
         if name == '|':
             return SInt(x | y)
         if name == '&':
@@ -774,7 +809,8 @@ class Interp:
 
     def py_abs(self, v):
         if isinstance(v, SInt):
-            self.add_side(v.t != self.bv(self.MIN), 'abs overflow')
+            if self.int_mode != 'int':
+                self.add_side(v.t != self.bv(self.MIN), 'abs overflow')
             return SInt(z3.If(v.t < 0, -v.t, v.t))
         if isinstance(v, SFloat):
             return SFloat(z3.fpAbs(v.t))
@@ -1166,7 +1202,8 @@ class Interp:
                     self.add_side(v.num != self.bv(self.MIN), 'neg overflow')
                     return SRat(-v.num, v.den)
                 t = self.it(v)
-                self.add_side(t != self.bv(self.MIN), 'neg overflow')
+                if self.int_mode != 'int':
+                    self.add_side(t != self.bv(self.MIN), 'neg overflow')
                 return SInt(-t)
             if isinstance(e.op, ast.Invert):
                 return SInt(~self.it(v))
@@ -1351,6 +1388,8 @@ def eval_term(t, assignment):
     for var, val in assignment.items():
         if z3.is_bv(var):
             subs.append((var, z3.BitVecVal(val, var.size())))
+        elif z3.is_int(var):
+            subs.append((var, z3.IntVal(val)))
         elif z3.is_bool(var):
             subs.append((var, z3.BoolVal(bool(val))))
         else:
@@ -1358,6 +1397,8 @@ def eval_term(t, assignment):
     r = z3.simplify(z3.substitute(t, *subs)) if subs else z3.simplify(t)
     if z3.is_bv_value(r):
         return r.as_signed_long()
+    if z3.is_int_value(r):
+        return r.as_long()
     if z3.is_true(r):
         return True
     if z3.is_false(r):
